@@ -8,11 +8,11 @@ from props import c03
 
 OBLIGATIONS = dict(
     prop_file='Properties/C08.v',
-    glue=['Glue/CoreGlue.v'] + [f'Glue/Pin_{n}.v' for n in ('w_euclid', 'w_cosine', 'w_vq', 'w_fsq', 'w_lfq', 'w_simvq', 'w_rpq', 'w_rvq', 'w_rfsq', 'w_rlfq', 'w_rsvq', 'w_lq', 'o_rpq_eval')] + ['Glue/Pin_fp_C08.v'],
+    glue=['Glue/CoreGlue.v'] + [f'Glue/Pin_{n}.v' for n in ('w_euclid', 'w_cosine', 'w_vq', 'w_fsq', 'w_lfq', 'w_simvq', 'w_rpq', 'w_rvq', 'w_rfsq', 'w_rlfq', 'w_rsvq', 'w_lq', 'o_rpq_eval')] + ['Glue/Pin_fp_C08.v', 'Glue/InventoryFacts.v'],
     extra=['Model/CoreCheck.vo'],
     gen_items=['g_euclid_ema', 'g_cosine_ema', 'g_euclid_update_ema', 'g_cosine_update_ema', 'g_euclid_expire', 'g_cosine_expire', 'g_euclid_kmeans',
                'g_cosine_kmeans', 'g_gumbel_noise', 'g_rvq_shared_update', 'g_rvq_shared_expire', 'g_rvq_shared_opt', 'g_vq_inplace_opt', 'g_vq_inplace_step',
-               'w_euclid', 'w_cosine', 'w_vq', 'w_fsq', 'w_lfq', 'w_simvq', 'w_rpq', 'w_rvq', 'w_rfsq', 'w_rlfq', 'w_rsvq', 'w_lq', 'o_rpq_eval', 'fp_C08'],
+               'w_euclid', 'w_cosine', 'w_vq', 'w_fsq', 'w_lfq', 'w_simvq', 'w_rpq', 'w_rvq', 'w_rfsq', 'w_rlfq', 'w_rsvq', 'w_lq', 'o_rpq_eval', 'inv_euclid', 'inv_cosine', 'fp_C08'],
 )
 ASSUMPTIONS = [
     'state = state_dict() + parameters, compared bit-exactly before/after every pure operation; optimiser-internal state (momentum) is outside state_dict and not observed',
